@@ -141,6 +141,12 @@ type Module interface {
 	NonTrivial(x *X) bool
 }
 
+// EnvModule is implemented by a module whose export / import reads another module's state: Env prints,
+// for the objects of chain a, what chain c's other module says about them.
+type EnvModule interface {
+	Env(x *X, a, c *Chain) string
+}
+
 var modules = map[string]Module{}
 var moduleOrder = []string{"record", "htlc", "mt", "farm", "oracle", "random", "token", "coinswap", "nft", "service"}
 
@@ -280,6 +286,10 @@ func runPath(x *X, m Module, a *Chain, initHeight, queryHeight int64, tag string
 	x.Scratch["importOK"] = kind == "ok" // Cross may ask B only when the import succeeded
 	cross = m.Cross(x, a, b)
 	args := []string{sA, gA, lib.B(verr == nil), lib.Z(int64(imp)), sB, gB}
+	if em, ok := m.(EnvModule); ok {
+		// the state of the modules this one reads from, on A and on B (unchanged by this module's import)
+		args = append([]string{em.Env(x, a, a), em.Env(x, a, b)}, args...)
+	}
 	if cross != "" {
 		args = append(args, cross)
 	}
